@@ -1037,6 +1037,141 @@ theorem convert_strict_aux (C : UClass reg) (hΓ : ∀ (i : Nat) (vi : VarInfo),
         exact ⟨good_ite gt (fun _ => ge), pt⟩
   | _ => intro hf; simp [strictFrag] at hf
 
+/-! ### a real instance of `UClass`: units whose root units all carry a dimension
+
+    For a registry whose dimensioned root units have pairwise different dimensions (checked by `decide` for a concrete
+    registry), "same dimension" determines the root units of such units, hence factor one implies `is_equivalent`. -/
+
+/-- the root units that carry a dimension, with it -/
+def dimBases : Registry → List (String × String)
+  | [] => []
+  | (n, .base (some d)) :: r => (n, d) :: dimBases r
+  | _ :: r => dimBases r
+
+/-- coefficient of dimension `d0` in the dimensionality of a root container -/
+def dimCoef (L : List (String × String)) (c : Container) (d0 : String) : Rat :=
+  match L with
+  | [] => 0
+  | (n, d) :: t => (if d = d0 then c.get n else 0) + dimCoef t c d0
+
+theorem get_dimsOfRoot (reg : Registry) (c : Container) (d0 : String) :
+    get (dimsOfRoot reg c) d0 = dimCoef (dimBases reg) c d0 := by
+  induction reg with
+  | nil => rfl
+  | cons hd tl ih =>
+      obtain ⟨n, df⟩ := hd
+      cases df with
+      | base dim =>
+          cases dim with
+          | none => simpa [dimsOfRoot, dimBases] using ih
+          | some d => simp only [dimsOfRoot, dimBases, dimCoef, get_add, get_single, ih]
+      | derived k of => simpa [dimsOfRoot, dimBases] using ih
+
+theorem dimCoef_absent (L : List (String × String)) (c : Container) (d0 : String)
+    (h : d0 ∉ L.map Prod.snd) : dimCoef L c d0 = 0 := by
+  induction L with
+  | nil => rfl
+  | cons hd tl ih =>
+      obtain ⟨n, d⟩ := hd
+      simp only [List.map_cons, List.mem_cons, not_or] at h
+      have hne : ¬ d = d0 := fun e => h.1 e.symm
+      simp only [dimCoef, hne, if_false, ih h.2]; grind
+
+theorem dimCoef_unique (L : List (String × String)) (c : Container) (n0 d0 : String)
+    (hnd : (L.map Prod.snd).Nodup) (hm : (n0, d0) ∈ L) : dimCoef L c d0 = c.get n0 := by
+  induction L with
+  | nil => cases hm
+  | cons hd tl ih =>
+      obtain ⟨n, d⟩ := hd
+      simp only [List.map_cons, List.nodup_cons] at hnd
+      simp only [List.mem_cons, Prod.mk.injEq] at hm
+      rcases hm with ⟨rfl, rfl⟩ | hm
+      · simp only [dimCoef, if_true, dimCoef_absent tl c d0 hnd.1]; grind
+      · have hne : ¬ d = d0 := by
+          intro e; subst e
+          exact hnd.1 (List.mem_map.mpr ⟨(n0, d), hm, rfl⟩)
+        simp only [dimCoef, hne, if_false, ih hnd.2 hm]; grind
+
+/-- the dimensioned root units of the registry have pairwise different dimensions -/
+def dimsDistinct (reg : Registry) : Bool := decide ((dimBases reg).map Prod.snd).Nodup
+
+/-- every root unit of the unit carries a dimension (no `radian`, no unknown name) -/
+def RootsDim (reg : Registry) (c : Container) : Prop :=
+  ∀ n, get (toRoot reg c).2 n ≠ 0 → ∃ d, (n, d) ∈ dimBases reg
+
+/-- executable sufficient test for `RootsDim` -/
+def rootsDimB (reg : Registry) (c : Container) : Bool :=
+  (rootOf reg c).all (fun p => (dimBases reg).any (fun nd => nd.1 == p.1))
+
+theorem get_ne_zero_mem {κ : Type} [DecidableEq κ] (l : PMap κ) (k : κ) (h : get l k ≠ 0) : ∃ x, (k, x) ∈ l := by
+  induction l with
+  | nil => exact absurd rfl h
+  | cons hd tl ih =>
+      obtain ⟨k', x⟩ := hd
+      by_cases hk : k' = k
+      · subst hk; exact ⟨x, by simp⟩
+      · have : get tl k ≠ 0 := by
+          intro h0; apply h; simp only [get_cons, hk, if_false, h0]; grind
+        obtain ⟨y, hy⟩ := ih this
+        exact ⟨y, by simp [hy]⟩
+
+theorem rootsDim_of_test {reg : Registry} {c : Container} (h : rootsDimB reg c = true) : RootsDim reg c := by
+  intro n hn
+  have hn' : get (rootOf reg c) n ≠ 0 := by simpa only [rootOf, get_norm] using hn
+  obtain ⟨x, hx⟩ := get_ne_zero_mem _ _ hn'
+  simp only [rootsDimB, List.all_eq_true] at h
+  have := h (n, x) hx
+  simp only [List.any_eq_true, beq_iff_eq] at this
+  obtain ⟨⟨n', d⟩, hmem, heq⟩ := this
+  simp only at heq; subst heq
+  exact ⟨d, hmem⟩
+
+/-- on units whose root units all carry a dimension, factor one implies `is_equivalent` -/
+theorem faithful_of_distinct {reg : Registry} (hreg : dimsDistinct reg = true) {a b : Container}
+    (ha : RootsDim reg a) (hb : RootsDim reg b) (hf : factor reg a b = .ok []) : isEquivalent reg a b = true := by
+  obtain ⟨ka, kb, hd, _⟩ := (Cellml.Props.C07.factor_ok_iff reg a b []).mp hf
+  refine (Cellml.Props.C07.equiv_iff_factor_one reg a b ka kb).mpr ⟨hf, ?_⟩
+  have hdd : dimsOfRoot reg (toRoot reg a).2 ≃ dimsOfRoot reg (toRoot reg b).2 :=
+    (dimsOf_equiv reg a).symm.trans ((equiv_of_beq hd).trans (dimsOf_equiv reg b))
+  have hnd : ((dimBases reg).map Prod.snd).Nodup := of_decide_eq_true hreg
+  intro n
+  by_cases hex : ∃ d, (n, d) ∈ dimBases reg
+  · obtain ⟨d, hmem⟩ := hex
+    have h1 := dimCoef_unique (dimBases reg) (toRoot reg a).2 n d hnd hmem
+    have h2 := dimCoef_unique (dimBases reg) (toRoot reg b).2 n d hnd hmem
+    rw [← h1, ← h2, ← get_dimsOfRoot, ← get_dimsOfRoot]
+    exact hdd d
+  · have za : get (toRoot reg a).2 n = 0 := Classical.byContradiction fun h0 => hex (ha n h0)
+    have zb : get (toRoot reg b).2 n = 0 := Classical.byContradiction fun h0 => hex (hb n h0)
+    rw [za, zb]
+
+/-- the class of units without dimensionless root units, for a registry with distinct base dimensions -/
+def dimClass (reg : Registry) (hreg : dimsDistinct reg = true) : UClass reg where
+  P := RootsDim reg
+  nil := by
+    intro n hn
+    exact absurd (by have := (sem_nil reg).2 n; simpa [Spec.one] using this) hn
+  mul := by
+    intro a b ha hb n hn
+    have h := (sem_mulC reg a b).2 n
+    simp only [Spec.mul, get_add] at h
+    by_cases h0 : get (toRoot reg a).2 n = 0
+    · apply hb n; intro h1; apply hn; rw [h, h0, h1]; grind
+    · exact ha n h0
+  div := by
+    intro a b ha hb n hn
+    have h := (sem_divC reg a b).2 n
+    simp only [Spec.div, get_sub] at h
+    by_cases h0 : get (toRoot reg a).2 n = 0
+    · apply hb n; intro h1; apply hn; rw [h, h0, h1]; grind
+    · exact ha n h0
+  pow := by
+    intro a q ha n hn
+    have h := (sem_powC reg a q).2 n
+    simp only [Spec.pow, get_smul] at h
+    apply ha n; intro h0; apply hn; rw [h, h0]; grind
+  faithful := fun ha hb hf => faithful_of_distinct hreg ha hb hf
+
 end strict
 
 end Convert
